@@ -502,6 +502,14 @@ def run(ck, ix, tier):
                     idx_ = [i for i, a_ in enumerate(c_.args) if norm(a_) == var][0]
                     if idx_ < len(ps_):
                         scope.append((g_.node, ps_[idx_]))
+        # ... and the functions defined inside the method that it hands `var` to (an `as_bound(limit)` applied to both bounds)
+        for g_ in [g_ for g_ in f.module.all_functions if g_.parent is f and isinstance(g_.node, ast.FunctionDef)]:
+            for c_ in walk_local(f.node):
+                if isinstance(c_, ast.Call) and isinstance(c_.func, ast.Name) and c_.func.id == g_.name and not c_.keywords:
+                    ps_ = [a_.arg for a_ in g_.node.args.args]
+                    for i_, a_ in enumerate(c_.args):
+                        if norm(a_) == var and i_ < len(ps_):
+                            scope.append((g_.node, ps_[i_]))
         conv, guard = False, False
         for fn_, v_ in scope:
             is_q = lambda a_, v_=v_: isinstance(a_, ast.Call) and call_name(a_) == "isinstance" and a_.args and norm(a_.args[0]) == v_ and "self.__class__" in norm(a_.args[1])
@@ -535,12 +543,26 @@ def run(ck, ix, tier):
     # some exit returns (ARGS converted to U, lambda v: Quantity(v, U)) with U = the units of the first quantity argument
     rest_ = f.node.args.vararg.arg if f.node.args.vararg else "args"
     U_ = f"_get_first_input_units({rest_})"
+    # the wrapper may be a lambda or a one-expression function defined inside (whatever it is called); the unit it closes
+    # over may be the call itself or a local of the enclosing function bound to it
+    nested_ = {g.name: g.node for g in f.module.all_functions if g.parent is f and isinstance(g.node, ast.FunctionDef)}
+
+    def wrapper_(e):
+        """(parameter, expression with closure locals of the enclosing function resolved) of a one-argument wrapper"""
+        if isinstance(e, ast.Lambda) and len(e.args.args) == 1:
+            return e.args.args[0].arg, e.body
+        if isinstance(e, ast.Name) and e.id in nested_ and len(nested_[e.id].args.args) == 1:
+            body_ = _shw.single_return(nested_[e.id])
+            if body_ is not None:
+                sub_ = {n_.id: defs_of(f).single(n_.id) for n_ in ast.walk(body_) if isinstance(n_, ast.Name) and defs_of(f).single(n_.id) is not None and n_.id != nested_[e.id].args.args[0].arg}
+                return nested_[e.id].args.args[0].arg, _shw._subst(_shw.clone(body_), sub_)
+        return None
     ok = False
     for r in _shw.returns_of(f.node):
         v = _shw.resolve(r.value, f.node)
-        if isinstance(v, ast.Tuple) and len(v.elts) == 2 and isinstance(v.elts[1], ast.Lambda) and len(v.elts[1].args.args) == 1:
-            par_ = v.elts[1].args.args[0].arg
-            ok = ok or (_shw.match(f"convert_to_consistent_units(*{rest_}, pre_calc_units={U_})[0]", v.elts[0]) is not None and _shw.match(f"_R.Quantity({par_}, {U_})", v.elts[1].body) is not None)
+        w_ = wrapper_(v.elts[1]) if isinstance(v, ast.Tuple) and len(v.elts) == 2 else None
+        if w_ is not None:
+            ok = ok or (_shw.match(f"convert_to_consistent_units(*{rest_}, pre_calc_units={U_})[0]", v.elts[0]) is not None and _shw.match(f"_R.Quantity({w_[0]}, {U_})", w_[1]) is not None)
     ck.check(ok, "G-TAG",
              "unwrap_and_wrap_consistent_units|first-unit-in-first-unit-out", f.loc(), "arguments converted to the first unit; output wrapped with it", "unwrap_and_wrap_consistent_units no longer converts to and wraps with the first input's units")
     f = ix.func(NF, "convert_arg")
